@@ -330,7 +330,7 @@ def _norm_desc(desc):
     """operand provenance modulo what a move into a helper/closure changes: ordinal suffix, anonymous closure parameters and locals"""
     d = re.sub(r" #\d+$", "", desc)
     # `?` <-> explicit match, `.unwrap()` <-> match …: the markers of transparent calls do not identify the value
-    d = re.sub(r"\.(branch|from_residual|unwrap|expect|as_ref|as_mut|clone|cloned|copied|deref|deref_mut|borrow|into|ok|unwrap_unchecked)\(\)", "", d)
+    d = re.sub(r"\.(branch|from_residual|unwrap|expect|as_ref|as_mut|clone|cloned|copied|deref|deref_mut|borrow|into|from|try_into|try_from|ok|unwrap_unchecked)\(\)", "", d)
     ops = []
     for o in d.split(" , "):
         alts = [a.strip() for a in o.split(" | ")]
